@@ -64,7 +64,9 @@ def _case(draw):
         if draw(st.integers(0, 4)) == 1:
             # a run-time argument error on every scanned line (column 0 holds text): handled per the configured policy
             prog["comps"].insert(draw(st.integers(0, len(prog["comps"]))), ["=", "ez", [], None, ["f", "add", [], [["hi", 0], ["t", 1]]]])
-        members.append({"prog": prog, "scan": scan, "id": f"m{i}", "modes": modes})
+        members.append({"prog": prog, "scan": scan, "id": f"m{i}", "modes": modes,
+                        # the identity may be given under any of the documented keys
+                        "idkey": draw(st.sampled_from(["id", "id", "id", "Id", "ID", "name", "Name", "NAME"]))})
     if draw(st.sampled_from([False, False, False, True])):
         # a data record repeated verbatim (identical rows are legal CSV)
         rows = [i for i, r in enumerate(table["records"]) if r][1:]
@@ -83,7 +85,7 @@ def strategy(tier):
 
 
 def member_text(m, filename=""):
-    meta = f"~ id: {m['id']}" + (" logic-mode: OR" if m["prog"].get("mode") == "OR" else "") + "".join(" " + x for x in m.get("modes", [])) + " ~ "
+    meta = f"~ {m.get('idkey', 'id')}: {m['id']}" + (" logic-mode: OR" if m["prog"].get("mode") == "OR" else "") + "".join(" " + x for x in m.get("modes", [])) + " ~ "
     return common.text_of(m["prog"], filename, m["scan"], comment=meta)
 
 
